@@ -25,8 +25,8 @@ EXTENDS Naturals, Sequences, FiniteSets, TLC, Json, IOUtils
 
 Cases == JsonDeserialize(IOEnv.VF_CASES)
 
-VARIABLES i, l, live, succ, bad, fin
-vars == <<i, l, live, succ, bad, fin>>
+VARIABLES i, l, live, succ, succc, bad, fin
+vars == <<i, l, live, succ, succc, bad, fin>>
 
 Case  == Cases[i]
 Props == {Case.props[j] : j \in DOMAIN Case.props}
@@ -44,7 +44,13 @@ CallClause(st) ==
                        THEN (IF "C05" \in Props THEN "C05:same_as_rebuilt" ELSE "C04:same_as_fresh")
                   ELSE ""
              ELSE ""
-      c20 == IF "C20" \in Props /\ st.call \in succ
+      Combos(x) == IF "combos" \in DOMAIN x THEN {x.combos[j] : j \in DOMAIN x.combos} ELSE {}
+      \* every argument-type combination this call dispatched on (itself and through recurse / call_next, keywords
+      \* in any order) has been handled since the last change: nothing is left to resolve
+      c20n == IF "C20" \in Props /\ st.call \notin succ /\ Combos(st) # {} /\ Combos(st) \subseteq succc /\ st.obs.kind = "run"
+                 /\ st.counts.user # 0
+              THEN "C20:no_recompute_after_success.user_hook_consulted.combination_seen_before" ELSE ""
+      c20 == IF c20n # "" THEN c20n ELSE IF "C20" \in Props /\ st.call \in succ
              THEN IF st.counts.user # 0 THEN "C20:no_recompute_after_success.user_hook_consulted"
                   ELSE IF st.counts.tm_miss # 0 THEN "C20:no_recompute_after_success.type_order_recomputed"
                   ELSE IF st.counts.plain_miss # 0 THEN "C20:no_recompute_after_success.resolution_rerun"
@@ -53,22 +59,23 @@ CallClause(st) ==
   IN IF c45 # "" THEN c45 ELSE c20
 
 Init == /\ i \in 1..Len(Cases)
-        /\ l = 1 /\ live = <<>> /\ succ = {} /\ bad = "" /\ fin = FALSE
+        /\ l = 1 /\ live = <<>> /\ succ = {} /\ succc = {} /\ bad = "" /\ fin = FALSE
 
 Consume ==
   /\ ~fin /\ l <= Len(Case.steps)
   /\ LET st == Case.steps[l] IN
      CASE st.op = "register" ->
             /\ live' = Append(live, st.m)
-            /\ succ' = {}
+            /\ succ' = {} /\ succc' = {}
             /\ bad' = IF InSeq(live, st.m) /\ bad = "" THEN "premise.double_register@" \o ToString(l) ELSE bad
        [] st.op = "unregister" ->
             /\ live' = Remove(live, st.m)
-            /\ succ' = {}
+            /\ succ' = {} /\ succc' = {}
             /\ bad' = bad
        [] OTHER ->
             /\ live' = live
             /\ succ' = IF st.obs.kind = "run" THEN succ \cup {st.call} ELSE succ
+            /\ succc' = IF st.obs.kind = "run" /\ "combos" \in DOMAIN st THEN succc \cup {st.combos[j] : j \in DOMAIN st.combos} ELSE succc
             /\ LET c == CallClause(st) IN
                bad' = IF c # "" THEN bad \o (IF bad = "" THEN "" ELSE ",") \o c \o "@" \o ToString(l) \o "#0"
                       ELSE bad
@@ -79,7 +86,7 @@ Finish ==
   /\ ~fin /\ l > Len(Case.steps)
   /\ PrintT("VERDICT|" \o Case.id \o "|" \o bad \o "|kf=0;drift=0")
   /\ fin' = TRUE
-  /\ UNCHANGED <<i, l, live, succ, bad>>
+  /\ UNCHANGED <<i, l, live, succ, succc, bad>>
 
 Next == Consume \/ Finish
 Spec == Init /\ [][Next]_vars
